@@ -18,6 +18,9 @@ What runs:
      quiescence: every public view of the gateway and of every device, system and zone is read;
      get_state(include_expired = F, T) and a restore of each result; a probe packet of a fresh
      device, a probe packet of a device the gateway was tracking, and a probe command.
+     Every third history begins at point zero: the same views and operations (restoring the snapshot
+     an earlier session left of the history's first packets) on the gateway that has not been started
+     yet, then start() - Engine.tla's phase 'not yet started' and Bind.
   3. TLC (EngineTrace, with Engine's Running / SameProj operators) judges every recorded trace.
 """
 from __future__ import annotations
@@ -79,6 +82,9 @@ def plan(tier: str, rnd: random.Random, logs: dict) -> list[dict]:
         rows = X.foreign_kit(rnd, list(logs[name])[-120:], 3 if quick else 5)
         out.insert(n, {"log": name, "ops": ["foreign-kit"], "eav": (n + 1) % 2, "k": max(200, len(rows) // 3),
                        "rows": rows, "nodisc": 1})
+    # "snapshot/restore invoked at every point of the history": point zero included (before start())
+    for n, hh in enumerate(out):
+        hh["pre"] = int(n % 3 == 0)
     return out
 
 
@@ -88,7 +94,7 @@ async def run_all(hist: list[dict], budget_s: float) -> list[dict]:
     for hh in hist:
         if time.time() - t0 > budget_s:
             break
-        items.append(await X.run_history(hh["rows"], hh["eav"], hh["k"], nodisc=hh["nodisc"]))
+        items.append(await X.run_history(hh["rows"], hh["eav"], hh["k"], nodisc=hh["nodisc"], pre=hh["pre"]))
     return items
 
 
@@ -103,7 +109,7 @@ def do_replay(path: str) -> None:
     print(f"replaying {obj.get('key', '?')}: {obj.get('what', '')}")
     fakes.quiet_logging()
     item, _ = vloop.run(lambda: X.run_history([tuple(r) for r in rp["rows"]], rp["eav"], rp["k"], verbose=True,
-                                              nodisc=rp.get("nodisc", 1)))
+                                              nodisc=rp.get("nodisc", 1), pre=rp.get("pre", 0)))
     clean = {k: v for k, v in item.items() if not k.startswith("_")}
     res = tlc.validate_batch("EngineTrace", [clean], workers=1)
     for idx, fails in res["rejects"]:
@@ -141,6 +147,16 @@ def main(tier: str, replay: str | None) -> None:
         e = next(e for e in bad2["ev"] if e["k"] == "view")
         e["res"] = "KeyError"
         canaries.append((bad2, "C13a:view-raises"))
+    src = next((it for it in items if any(e["k"] == "start" for e in it["ev"])), None)
+    if src is not None:     # ... and of a history that begins before start(): writing left paused at point zero
+        bad = {k: v for k, v in json.loads(json.dumps(src)).items() if not k.startswith("_")}
+        e = next(e for e in bad["ev"] if e["k"] == "op" and e["tr"] == 0 and e["res"] == "ok")
+        e["after"] = e["before"][:4] + [1] + e["before"][5:]
+        canaries.append((bad, "C13b:not-running-as-before-after-"))
+        bad2 = {k: v for k, v in json.loads(json.dumps(src)).items() if not k.startswith("_")}
+        e = next(e for e in bad2["ev"] if e["k"] == "start")
+        e["after"] = e["after"][:4] + [1] + e["after"][5:]
+        canaries.append((bad2, "C13b:not-running-once-started-after-operations-before-start"))
     clean = [{k: v for k, v in it.items() if not k.startswith("_")} for it in items]
     res = tlc.validate_batch("EngineTrace", clean + [c[0] for c in canaries], workers=4 if quick else 8, chunk=300)
     rej = dict(res["rejects"])
@@ -157,9 +173,11 @@ def main(tier: str, replay: str | None) -> None:
             key = refine(cls, ev, it["_detail"][line - 1])
             classes[key] = classes.get(key, 0) + 1
             what = (f"{key}: history {hh['log']} ({'+'.join(hh['ops']) or 'as shipped'}, {len(hh['rows'])} packets, "
-                    f"eavesdrop={'on' if hh['eav'] else 'off'}, discovery={'off' if hh['nodisc'] else 'on'}), event {line}: {ev['k']} {ev['name']} "
+                    f"eavesdrop={'on' if hh['eav'] else 'off'}, discovery={'off' if hh['nodisc'] else 'on'}"
+                    f"{', beginning before start()' if hh['pre'] else ''}), event {line}"
+                    f"{' (gateway not yet started)' if not ev['tr'] else ''}: {ev['k']} {ev['name']} "
                     f"{it['_detail'][line - 1]} -> {ev['res']}; engine before {ev['before']} after {ev['after']}")
-            chk.violation(key, what, {"rows": hh["rows"], "eav": hh["eav"], "k": hh["k"], "nodisc": hh["nodisc"], "log": hh["log"],
+            chk.violation(key, what, {"rows": hh["rows"], "eav": hh["eav"], "k": hh["k"], "nodisc": hh["nodisc"], "pre": hh["pre"], "log": hh["log"],
                                       "ops": hh["ops"], "event": line})
 
     states = trans = 0
@@ -193,6 +211,9 @@ def main(tier: str, replay: str | None) -> None:
             "model_checking": mc_summary,
             "traces_validated_against_impl": len(items),
             "histories": len(items),
+            "histories_beginning_before_start": sum(1 for i in items if i["_pre"]),
+            "operations_on_a_gateway_not_yet_started": sum(1 for i in items for e in i["ev"]
+                                                           if e["k"] in ("op", "opx", "nested") and not e["tr"]),
             "histories_by_operation": opsn,
             "logs_used": len({hh["log"] for hh in hist}),
             "packets_fed": sum(i["_fed"] for i in items),
@@ -206,7 +227,7 @@ def main(tier: str, replay: str | None) -> None:
             "corrupted_traces_rejected": len(canaries),
             "trace_validation_states": res["states"],
             "samples": [
-                {"history": {k: hist[0][k] for k in ("log", "ops", "eav", "k")}, "first_rows": hist[0]["rows"][:3],
+                {"history": {k: hist[0][k] for k in ("log", "ops", "eav", "k", "pre")}, "first_rows": hist[0]["rows"][:3],
                  "events": items[0]["ev"][:4]},
                 {"views": view_names[:40]},
             ],
@@ -217,6 +238,8 @@ def main(tier: str, replay: str | None) -> None:
             "exceptions reaching the loop's exception handler are counted, not judged (the statement does not mention them)",
             "a history is stopped at the first observation that finds the engine paused (everything after is a consequence)",
             "the gateway sends through a fake transport that echoes every frame; discovery is disabled",
+            "a history that begins before start(): start() is requested when no operation is in progress (not while a "
+            "restore awaits); before start() there are no probes (nothing to receive from or send through)",
         ],
     )
 
